@@ -33,7 +33,8 @@ class PersistentList(IPersistentList[T], ISeq[T], IWithMeta):
         return self._inner[item]
 
     def __hash__(self):
-        return hash(self._inner)
+        # must agree with ISeq.__hash__: equal sequential collections hash alike
+        return hash(tuple(self))
 
     def __len__(self):
         return len(self._inner)
